@@ -96,9 +96,12 @@ theorem visualizeGraph_wf (ν : Nums) (a : GraphArgs) (d : Drawing) (hν : SafeN
     (Inner.append he2 (Inner.append (graphNodes_inner hν _ _ _ hcs hnodes) (namesText_inner hν _ _ _ _ htext))))
 
 /-- every number printed as `#` (what the correspondence runs use) -/
-def νhash : Nums := fun _ _ _ => [35]
+def νhash : Nums := { tok := fun _ _ _ => [35] }
 
 theorem νhash_safe : SafeNums νhash := fun _ _ _ => (by decide : SafeStr [35])
+
+/-- the stable insertion sort of the model is a permutation of the positions -/
+theorem νhash_sort : SortOk νhash := fun d => argsort_perm d
 
 /-- a directed triangle with a coincident pair of nodes, hostile names, labels and an edge label on a non-edge -/
 def exampleGraph : GraphArgs :=
@@ -270,12 +273,13 @@ structure GraphDomain (a : GraphArgs) : Prop where
       a pie chart (more than one stored membership, non-zero sum);
     * one edge `path` per displayed edge — stored entry of non-zero weight, or edge label on a pair without edge —
       except arrows between two nodes that were given the same position (`rescale` keeps distinct positions distinct:
-      `finalPos_coincide`); `np.argsort` may visit the entries in any order;
+      `finalPos_coincide`); `np.argsort` may return any permutation of the entries (`SortOk`);
     * one `text` element per node `0 … n-1` in this order when names are given, the `i`-th showing the plain characters
       of `names[i]`. -/
-theorem visualizeGraph_counts (ν : Nums) (a : GraphArgs) (d : Drawing) (hν : SafeNums ν) (ha : SafeGraphArgs a)
-    (hd : GraphDomain a) (h : visualizeGraph ν a = .ok d) : docMeets (render d.svg) (expectedGraph a) = true :=
-  visualizeGraph_docMeets ν a d hν ha.nodeColor ha.edgeColor ha.labelColors hd.probs hd.weights hd.canvas hd.scale
+theorem visualizeGraph_counts (ν : Nums) (a : GraphArgs) (d : Drawing) (hν : SafeNums ν) (hsort : SortOk ν)
+    (ha : SafeGraphArgs a) (hd : GraphDomain a) (h : visualizeGraph ν a = .ok d) :
+    docMeets (render d.svg) (expectedGraph a) = true :=
+  visualizeGraph_docMeets ν a d hν hsort ha.nodeColor ha.edgeColor ha.labelColors hd.probs hd.weights hd.canvas hd.scale
     hd.indices h
 
 example : GraphDomain exampleGraph :=
@@ -313,10 +317,10 @@ structure BigraphDomain (a : BigraphArgs) : Prop where
     document with root `svg` that contains one node shape per row and per column (circle, or one sector per label for
     a pie chart), one edge `path` per stored entry of non-zero weight and per edge label on a pair without edge, and one
     `text` element per row name then per column name, each showing the plain characters of its name. -/
-theorem visualizeBigraph_counts (ν : Nums) (a : BigraphArgs) (d : Drawing) (hν : SafeNums ν)
+theorem visualizeBigraph_counts (ν : Nums) (a : BigraphArgs) (d : Drawing) (hν : SafeNums ν) (hsort : SortOk ν)
     (ha : SafeBigraphArgs a) (hd : BigraphDomain a) (h : visualizeBigraph ν a = .ok d) :
     docMeets (render d.svg) (expectedBigraph a) = true :=
-  visualizeBigraph_docMeets ν a d hν ha.colorRow ha.colorCol ha.edgeColor ha.labelColors hd.probsRow hd.probsCol
+  visualizeBigraph_docMeets ν a d hν hsort ha.colorRow ha.colorCol ha.edgeColor ha.labelColors hd.probsRow hd.probsCol
     hd.weights h
 
 example : BigraphDomain exampleBigraph :=
